@@ -1,6 +1,7 @@
 """C20 driver: executes ONE history of late type registrations / algorithm uses in this (fresh) process.
 
-Usage:  python -B -m vf.c20_driver '<json list of steps>'      (or `--list` to print the catalogue)
+Usage:  python -B -m vf.c20_driver -        (JSON list of steps on stdin; a JSON argument works too)
+        python -B -m vf.c20_driver --list   (print the catalogue of algorithm entries and late-type kinds)
 
 Steps
   {"op": "R", "kind": k}                                   define + register a new Expr subclass of kind k
@@ -8,7 +9,7 @@ Steps
   {"op": "U", "alg": A, "target": "old" | k, "ctx": c,
    "inst": "fresh" | "held"}                               apply A to the expression ctx_c(N_target)
 
-Prints one JSON object: {"steps": [outcome per step], "ntypes": ..}.  The outcome of a U step is
+Prints one line `C20RESULT <json>`: {"steps": [outcome per step], "ntypes": ..}.  The outcome of a U step is
   status   "ok" | "exc"
   canon    repr of the canonical serialisation of the result (status ok)
   exc      exception class name, `table`: the innermost frame (file, function) when the exception is an
